@@ -21,6 +21,7 @@ type walker struct {
 	path     []string
 	out      []string
 	skipBase bool
+	exported bool // skip unexported struct fields (caches and scratch space that no accessor exposes)
 }
 
 func (w *walker) emit(val string) {
@@ -151,6 +152,9 @@ func (w *walker) walk(v reflect.Value, depth int) {
 				continue
 			}
 			if w.skipBase && f.Name == "BaseLayer" && f.Anonymous {
+				continue
+			}
+			if w.exported && f.PkgPath != "" {
 				continue
 			}
 			w.push("." + f.Name)
@@ -361,4 +365,33 @@ func DiffLayer(a, b PacketSig) string {
 		}
 	}
 	return ""
+}
+
+// Exported is Of restricted to exported fields (at every depth).
+func Exported(v any) string {
+	w := &walker{seen: map[uintptr]bool{}, exported: true}
+	w.walk(reflect.ValueOf(v), 0)
+	return w.sb.String()
+}
+
+// ExportedDiff returns (bare path, description) of the first differing exported leaf of two values.
+func ExportedDiff(a, b any) (string, string) {
+	wa := &walker{seen: map[uintptr]bool{}, lines: true, exported: true}
+	wa.walk(reflect.ValueOf(a), 0)
+	wb := &walker{seen: map[uintptr]bool{}, lines: true, exported: true}
+	wb.walk(reflect.ValueOf(b), 0)
+	la, lb := wa.out, wb.out
+	for i := 0; i < len(la) && i < len(lb); i++ {
+		if la[i] != lb[i] {
+			pa := la[i]
+			if j := strings.Index(pa, " = "); j >= 0 {
+				pa = pa[:j]
+			}
+			return stripIdx(pa), fmt.Sprintf("%s (%s | %s)", pa, trunc(la[i]), trunc(lb[i]))
+		}
+	}
+	if len(la) != len(lb) {
+		return "<shape>", fmt.Sprintf("leaf count %d vs %d", len(la), len(lb))
+	}
+	return "", ""
 }
